@@ -36,7 +36,7 @@ def recorder(sb_dir, status=0):
 
 def cminx_exe(sb_dir):
     exe = os.path.join(sb_dir, 'cminx_wt.py')
-    write_exec(exe, f"#!{PY}\nimport sys, warnings\nwarnings.filterwarnings('ignore')\nsys.path.insert(0, {common.REPO_SRC!r})\nimport cminx\ncminx.main(sys.argv[1:])\n")
+    write_exec(exe, f"#!{PY}\nimport sys, warnings\nwarnings.filterwarnings('ignore')\nsys.path.insert(0, {common.REPO_SRC!r})\nfrom cminx import main\nsys.exit(main())\n")      # exactly what the installed console script does: main() with its default arguments
     return exe
 
 
@@ -270,7 +270,7 @@ def history_suite(seed, count, out, drv, budget_s=None, only=None):
                 if os.path.isdir(w): shutil.rmtree(w); shutil.copytree(os.path.join(bak, str(i)), w)
                 else: shutil.copy2(os.path.join(bak, str(i)), w)
             # 3. the same history through cminx_gen_rst()
-            got = []        # per step: (cmake status or None, fatal?, trees)
+            got = []        # per step: (cmake status, fatal?, trees of both outputs after the call, cmake's text)
             if one_run:
                 hist = os.path.join(sb.dir, '+hist+.json'); snap = os.path.join(sb.dir, '+snap+'); hook = os.path.join(sb.dir, 'between.py')
                 json.dump(dict(steps=steps, outs=outs_b, snap=snap), open(hist, 'w'))
